@@ -115,8 +115,43 @@ def seedseq_model_vs_numpy():
     return n
 
 
+def executor_selfcheck():
+    """the executor itself on a toy harness: path count is as computed by hand, a planted violation is found with a model
+    that reproduces, and the hash-partitioned exploration covers exactly the paths of the unsplit one."""
+    from symx import core
+
+    def toy(ctx):
+        x, y = ctx.real("x"), ctx.real("y")
+        ctx.assume(ctx.rel(x, ">", 0))
+        zone = 0 if y < 0 else (1 if y < x else 2)         # 3 zones
+        k = ctx.choice(3, "k")                                # x 3 choices
+        n = ctx.concretize(ctx.int("n", 0, 2))                # x 3 integers
+        ctx.cover(f"z{zone}k{k}n{n}")
+        ctx.check(not (zone == 1 and k == 2 and n == 1 and bool(2 * y == x)), "T:planted")
+
+    full = core.Ctx()
+    full.explore(toy, stop_on_violation=False)
+    assert len(full.covers) == 27, f"toy harness: {len(full.covers)} zone/choice combinations instead of 27"
+    assert len(full.violations) == 1, "planted violation not found exactly once"
+    vals = full.violations[0].values
+    assert 2 * vals["y"] == vals["x"] and vals["x"] > 0, "model of the planted violation does not satisfy it"
+    cc = core.ConcreteCtx(vals, full.violations[0].choices)
+    cc.run(toy)
+    assert [v.label for v in cc.violations] == ["T:planted"], "planted violation does not replay"
+    total, covers = 0, {}
+    for i in range(4):
+        part = core.Ctx(prefix=(i, 4, 3))
+        part.explore(toy, stop_on_violation=False)
+        total += part.paths
+        for k, v in part.covers.items():
+            covers[k] = covers.get(k, 0) + v
+    # (cover counts of a sub-instance include paths it abandons at the partition test, so only the key sets are compared)
+    assert total == full.paths and set(covers) == set(full.covers), f"partitioned exploration: {total} paths vs {full.paths}"
+    return full.paths
+
+
 def run_all():
-    out = {}
+    out = {"executor_toy_paths": executor_selfcheck()}
     out["facade_vs_numpy_cases"] = facade_vs_numpy()
     out["wf_weights_cases"] = wf_weights_vs_numpy()
     out["seedseq_model_cases"] = seedseq_model_vs_numpy()
